@@ -726,7 +726,12 @@ func (s *Service) Shutdown() error {
 	if !atomic.CompareAndSwapInt32(&s.state, stateStarted, stateStopping) {
 		return errNotStarted
 	}
+	s.shutdown()
+	return nil
+}
 
+// shutdown stops a service whose state has been set to stopping.
+func (s *Service) shutdown() {
 	s.infof("Stopping service...")
 	s.close()
 
@@ -745,7 +750,6 @@ func (s *Service) Shutdown() error {
 	atomic.StoreInt32(&s.state, stateStopped)
 
 	s.infof("Stopped")
-	return nil
 }
 
 // close calls Close on the NATS connection, and closes the incoming channel
@@ -1163,8 +1167,22 @@ func (s *Service) handleDisconnect(_ *nats.Conn) {
 	}
 }
 
-func (s *Service) handleClosed(_ *nats.Conn) {
-	s.Shutdown()
+func (s *Service) handleClosed(nc *nats.Conn) {
+	s.connClosed(nc)
+}
+
+// connClosed stops the service if conn is the connection it is served on.
+//
+// A connection reports that it was closed asynchronously, also after the
+// service itself has closed it in Shutdown. By then the service may already
+// be served again, on another connection, which must be left alone.
+func (s *Service) connClosed(conn Conn) {
+	s.mu.Lock()
+	ok := s.nc == conn && atomic.CompareAndSwapInt32(&s.state, stateStarted, stateStopping)
+	s.mu.Unlock()
+	if ok {
+		s.shutdown()
+	}
 }
 
 func validateGetHandler(h Handler) {
